@@ -350,7 +350,18 @@ def cmd_check(prop, tier):
     violations = []
     job_wall = 0.0
     try:
-        for rep in pool.imap_unordered(job_main, indices(), chunksize=1):
+        it = pool.imap_unordered(job_main, indices(), chunksize=1)
+        grace = 240 if tier == 'quick' else 600
+        while True:
+            try:
+                # jobs still running long after the budget ended are abandoned (counted), never waited for forever
+                rep = it.next(timeout=max(5.0, deadline[0] + grace - time.time()))
+            except StopIteration:
+                break
+            except multiprocessing.TimeoutError:
+                agg['abandoned_jobs'] = agg.get('abandoned_jobs', 0) + 1
+                print('note: jobs still running %d s after the end of the budget were abandoned' % grace)
+                break
             inflight.release()
             if not rep['ok']:
                 agg['errors'].append(rep['error'])
